@@ -299,6 +299,9 @@ func (_this *Context) BeginRecordType(id []byte) {
 	if !_this.areRecordTypesAllowed() {
 		panic(fmt.Errorf("record types are not allowed here"))
 	}
+	if _, exists := _this.recordTypes[string(id)]; exists {
+		panic(fmt.Errorf("record type ID [%v] already exists", string(id)))
+	}
 	_this.beginContainer(&recordTypeRule, DataTypeRecordType, noObjectCount)
 	_this.recordTypeName = string(id)
 }
